@@ -166,6 +166,12 @@ def first_command_summary(c, cache, name, depth=0):
 def gate_variant(c, bf, conds, want):
     """is one of the path conditions the test `radio_mode is <want>`?"""
     rm = rules.variants_of(c.prog, 'mod_params::RadioMode')
+    conds = list(conds)
+    for cnd in list(conds):
+        # a `matches!(self.radio_mode, Mode(..))` flag that is known true stands for the discriminant test it was set under
+        fm = rules.flag_meaning(bf, cnd)
+        if fm is not None and fm[0]:
+            conds += list(fm[1])
     for cnd in conds:
         t = cnd[0]
         if t[0] == 'discr' and field_path(t[1])[1][-1:] == ['radio_mode'] and cnd[1] == (rm[want],):
